@@ -20,8 +20,13 @@
 #include <errno.h>
 #include <time.h>
 
+/* vf_common.c itself is compiled without -fsanitize=thread (its stamps and counters must not add
+ * happens-before edges), so the flavor define decides, not the compiler feature test */
+#if defined(VF_FLAVOR_TSAN)
+#define VF_TSAN 1
+#endif
 #if defined(__has_feature)
-#if __has_feature(thread_sanitizer)
+#if __has_feature(thread_sanitizer) && !defined(VF_TSAN)
 #define VF_TSAN 1
 #endif
 #if __has_feature(address_sanitizer)
@@ -33,6 +38,17 @@
 #endif
 #ifndef VF_ASAN
 #define VF_ASAN 0
+#endif
+
+/* ---- x86-TSO modelling for plain loads in public headers (TSan flavor) ----------------------
+ * The inline fast path of dispatch_once (dispatch/once.h) reads the predicate with a plain load
+ * and a compiler barrier; on x86 that load is an acquire. vf_tso_acquire tells TSan so, exactly
+ * like the promotion of the library's own atomics (DESIGN 6.2). No-op in the other flavors. */
+#if VF_TSAN
+extern void __tsan_acquire(void *addr);
+#define vf_tso_acquire(p) __tsan_acquire((void *)((uintptr_t)(p) & ~(uintptr_t)7))
+#else
+#define vf_tso_acquire(p) ((void)(p))
 #endif
 
 /* ---- stamps -------------------------------------------------------------
@@ -144,7 +160,15 @@ static inline void vf_progress(void)
 void vf_watch_begin(const char *ctx, unsigned idle_ok_ms);
 void vf_watch_end(void);
 /* Poll-wait until *ctr >= target, with the watchdog armed. */
-void vf_wait_counter(_Atomic uint64_t *ctr, uint64_t target, const char *ctx);
+void vf_wait_counter_impl(_Atomic uint64_t *ctr, uint64_t target, const char *ctx);
+/* The polling loop lives in vf_common.c, which is not TSan-instrumented: the acquire load that pairs with the
+ * release increments of the counted events has to happen in the (instrumented) caller, otherwise TSan reports
+ * every read of the checker at quiescence as a race with the events it waited for. */
+static inline void vf_wait_counter(_Atomic uint64_t *ctr, uint64_t target, const char *ctx)
+{
+	vf_wait_counter_impl(ctr, target, ctx);
+	(void)atomic_load_explicit(ctr, memory_order_acquire);
+}
 
 /* ---- results ------------------------------------------------------------- */
 /* Report a violation. key is a stable identifier (no addresses, no counts). */
